@@ -5,12 +5,14 @@
 //!   cactus-sim diffstd|scale|abort ...   (see the respective modules)
 
 mod alloc;
+mod diffstd;
 mod exec;
 mod gen;
 mod model;
 mod ops;
 mod profiles;
 mod report;
+mod scale;
 mod shared;
 
 use alloc::raw_write;
@@ -311,6 +313,37 @@ fn do_run(rc: &RunCfg<'_>, run: u64) {
                 st(St::p_layout_orders_differ, 1);
             }
         }
+        Mode::DiffStd => {
+            report::F_DIFFSTD.store(true, Relaxed);
+            let mut rng = Rng(hist_seed);
+            let prog = diffstd::generate(&mut rng, rc.thorough);
+            run_digest = diff_one(p.name, rc.seed, run, &prog, layout_seed);
+        }
+        Mode::AbortEnum => {
+            report::F_C16.store(true, Relaxed);
+            opts.record_dtors = true;
+            let head = ctx_head(p.name, rc.seed, run, 0, &[layout_seed], &none);
+            let base = execute(&head, Source::Generate { kn: &kn, hist_seed }, &none, layout_seed, &opts);
+            run_digest = base.digest;
+            opts.record_dtors = false;
+            let mut exec_i = 1u64;
+            let cap = if rc.thorough { 64 } else { 24 };
+            let mut scen: Vec<Faults> = vec![];
+            for (k, d) in base.dtors.iter().enumerate() {
+                for j in 0..d.own_slots.len() {
+                    scen.push(Faults { panic_at: vec![], scripts: vec![(k as u32, vec![Op::SelfCloneSlot { idx: j as Id, d: 900_001 }])] });
+                    scen.push(Faults { panic_at: vec![], scripts: vec![(k as u32, vec![Op::SelfDropSlot { idx: j as Id }])] });
+                }
+            }
+            for i in (1..scen.len()).rev() {
+                scen.swap(i, fault_rng.below(i + 1));
+            }
+            for f in scen.into_iter().take(cap) {
+                let head = ctx_head(p.name, rc.seed, run, exec_i, &[layout_seed], &f);
+                exec_i += 1;
+                c16_scenario(p.name, &head, &base.ops, &f, layout_seed, &opts, true);
+            }
+        }
         Mode::EnumPanic => {
             opts.record_dtors = true;
             let head = ctx_head(p.name, rc.seed, run, 0, &[layout_seed], &none);
@@ -356,6 +389,144 @@ fn do_run(rc: &RunCfg<'_>, run: u64) {
     if rc.digests {
         out(&format!("{{\"type\":\"digest\",\"run\":{run},\"d\":\"{run_digest:016x}\"}}\n"));
     }
+}
+
+/// C16: one scenario in a grandchild whose abort-like signals have their default
+/// disposition. Returns true if the scenario behaved as the property requires.
+fn c16_scenario(pname: &str, head: &str, ops: &[Op], f: &Faults, layout_seed: u64, opts: &ExecOpts, count: bool) -> bool {
+    let is_clone = matches!(f.scripts.first().and_then(|s| s.1.first()), Some(Op::SelfCloneSlot { .. }));
+    {
+        let s = sh();
+        s.c16_state = 0;
+        s.c16_flags = 0;
+        s.printed = 0;
+    }
+    // render the context before forking so that the parent can report for the child
+    report::ctx_begin(head);
+    let before = sh().stats;
+    let pid = unsafe { fork() };
+    if pid < 0 {
+        die("fork failed");
+    }
+    if pid == 0 {
+        alloc::default_abort_signals();
+        let o2 = ExecOpts { want_snaps: opts.want_snaps, record_dtors: false, layout_noise: false, c16_markers: true };
+        let o = execute(head, Source::Explicit(ops), f, layout_seed, &o2);
+        note_case(pname, &o, f, 0);
+        unsafe { alloc::_exit(0) };
+    }
+    let mut status = 0i32;
+    unsafe { waitpid(pid, &mut status, 0) };
+    let exited = status & 0x7f == 0;
+    let code = (status >> 8) & 0xff;
+    let sig = status & 0x7f;
+    let (state, flags) = (sh().c16_state, sh().c16_flags);
+    let (alive, doomed, must) = (flags & 1 != 0, flags & 2 != 0, flags & 4 != 0);
+    if count {
+        st(St::c16_scenarios, 1);
+    }
+    if sh().printed != 0 {
+        // the grandchild reported a violation itself
+        return false;
+    }
+    if exited && code == alloc::EXIT_HARNESS {
+        unsafe { alloc::_exit(alloc::EXIT_HARNESS) };
+    }
+    let fail = |kind: &str, cause: &str, msg: &str| -> bool {
+        report::emit_raw(kind, cause, msg, 0);
+        false
+    };
+    if !is_clone {
+        if exited && code == 0 {
+            if count {
+                st(St::c16_drop_ok, 1);
+            }
+            return true;
+        }
+        // roll the statistics of the dead grandchild back? they are harmless
+        let _ = before;
+        return fail("dead-drop-crashed", "drop-of-peer-handle-in-destructor", &format!("dropping a stored handle early inside a destructor ended the process (exited={exited} code={code} signal={sig})"));
+    }
+    match state {
+        0 => {
+            if exited && code == 0 {
+                if count {
+                    st(St::c16_noop, 1);
+                }
+                true
+            } else {
+                fail("crash", "before-clone-marker", &format!("the scenario died before reaching the clone (exited={exited} code={code} signal={sig})"))
+            }
+        }
+        1 => {
+            let aborted = !exited && (sig == 4 || sig == 6 || sig == 5);
+            if !aborted {
+                return fail("dead-clone-no-abort", "process-did-not-abort", &format!("the clone neither returned nor aborted cleanly (exited={exited} code={code} signal={sig})"));
+            }
+            if must {
+                return fail("abort-on-live-clone", "clone-of-reachable-object-aborted", "cloning a handle to an object that the program can still reach aborted the process");
+            }
+            if count {
+                if !alive {
+                    st(St::c16_clone_aborted_dead, 1);
+                } else if doomed {
+                    st(St::c16_clone_aborted_doomed, 1);
+                } else {
+                    st(St::c16_clone_unreachable_either, 1);
+                }
+            }
+            true
+        }
+        _ => {
+            // the clone returned; exec has already reported if the target was dead or doomed
+            if exited && code == 0 {
+                if count {
+                    if must {
+                        st(St::c16_clone_live_ok, 1);
+                    } else {
+                        st(St::c16_clone_unreachable_either, 1);
+                    }
+                }
+                true
+            } else {
+                fail("crash", "after-clone", &format!("the scenario died after a legal clone (exited={exited} code={code} signal={sig})"))
+            }
+        }
+    }
+}
+
+/// C07: one program on both families.
+fn diff_one(pname: &str, seed: u64, run: u64, prog: &[diffstd::D], layout_seed: u64) -> u64 {
+    alloc::reset(layout_seed, true);
+    report::reset_flags();
+    let text = diffstd::prog_text(prog);
+    let head = format!("{{\"type\":\"violation\",\"profile\":\"{pname}\",\"seed\":{seed},\"run\":{run},\"exec\":0,\"layouts\":[{layout_seed}],\"faults\":\"\",\"ops\":\"{}", json_escape(&text));
+    report::ctx_begin(&head);
+    st(St::execs, 1);
+    let mut on_step = |i: usize| report::STEP.store(i as u32, Relaxed);
+    let r = std::panic::catch_unwind(std::panic::AssertUnwindSafe(|| diffstd::run_both(prog, &mut on_step)));
+    let o = match r {
+        Ok(o) => o,
+        Err(_) => report::violation("internal-panic", "panic-in-differential-run", &format!("a panic escaped while executing the program at {}", last_panic_location())),
+    };
+    st(St::calls, prog.len() as u64 * 2);
+    st(St::steps, prog.len() as u64);
+    st(St::p_destroyed, o.destroyed as u64);
+    st_max(St::p_calls_max, prog.len() as u64);
+    if !o.equal {
+        report::STEP.store(o.step as u32, Relaxed);
+        let cause = prog.get(o.step).map(|d| d.name()).unwrap_or_else(|| "end-of-program".to_string());
+        report::violation("std-divergence", &cause, &format!("at call {} ({}) cactusref observed [{}] but std::rc observed [{}]", o.step, prog.get(o.step).map(|d| d.text()).unwrap_or_default(), o.cactus, o.std));
+    }
+    let h = fnv_bytes(0xcbf29ce484222325, text.as_bytes());
+    if o.destroyed > 0 && o.observations >= 5 {
+        st(St::nontrivial, 1);
+        shared::distinct_insert(h);
+        if sh().sample_len == 0 || sh().stats[St::nontrivial as usize] % 997 == 1 {
+            shared::set_sample(&format!("{{\"program\":\"{}\"}}", json_escape(&text)));
+        }
+    }
+    fnv(h, o.observations as u64)
 }
 
 fn install_panic_hook() {
@@ -468,6 +639,18 @@ fn batch(a: &Args) -> i32 {
 fn replay(a: &Args) -> i32 {
     let pname = a.get("--profile").unwrap_or_else(|| die("--profile required"));
     let profile = profiles::profile(pname).unwrap_or_else(|| die("unknown profile"));
+    if profile.mode == Mode::DiffStd {
+        shared::init();
+        alloc::init(true);
+        alloc::set_fault_reporter(report::on_fault);
+        install_panic_hook();
+        report::F_DIFFSTD.store(true, Relaxed);
+        let prog = diffstd::parse_prog(a.get("--ops").unwrap_or("")).unwrap_or_else(|e| die(&e));
+        let l: u64 = a.get("--layouts").unwrap_or("1").split(',').next().unwrap().parse().unwrap_or(1);
+        let d = diff_one(pname, a.num("--seed", 0), a.num("--run", 0), &prog, l);
+        out(&format!("{{\"type\":\"ok\",\"digest\":\"{d:016x}\"}}\n"));
+        return 0;
+    }
     let ops = ops::parse_ops(a.get("--ops").unwrap_or(""), ';').unwrap_or_else(|e| die(&e));
     let faults = Faults::parse(a.get("--faults").unwrap_or("")).unwrap_or_else(|e| die(&e));
     let layouts: Vec<u64> = a.get("--layouts").unwrap_or("1").split(',').filter(|s| !s.is_empty()).map(|s| s.parse().unwrap_or_else(|_| die("bad layout"))).collect();
@@ -478,6 +661,16 @@ fn replay(a: &Args) -> i32 {
     let mut opts = ExecOpts { want_snaps: profile.want_snaps, record_dtors: false, layout_noise: false, c16_markers: false };
     let seed = a.num("--seed", 0);
     let run = a.num("--run", 0);
+    if profile.mode == Mode::AbortEnum && !faults.is_empty() {
+        report::F_C16.store(true, Relaxed);
+        let head = ctx_head(pname, seed, run, 1, &layouts[..1], &faults);
+        let ok = c16_scenario(pname, &head, &ops, &faults, layouts[0], &opts, true);
+        if ok {
+            out("{\"type\":\"ok\"}\n");
+            return 0;
+        }
+        return alloc::EXIT_VIOLATION;
+    }
     let mut base: Option<ExecOut> = None;
     for (i, &l) in layouts.iter().enumerate() {
         let ls: Vec<u64> = if i == 0 { vec![l] } else { vec![layouts[0], l] };
@@ -499,12 +692,42 @@ fn replay(a: &Args) -> i32 {
     0
 }
 
+/// C15 child: one shape, one size, on a thread with a small fixed stack.
+fn scale_cmd(a: &Args) -> i32 {
+    let shape = a.get("--shape").unwrap_or("ring").to_string();
+    let n = a.num("--n", 1000) as usize;
+    let chords = a.num("--chords", 0) as usize;
+    let selfsame = a.num("--selfsame-every", 0) as usize;
+    let stack_kb = a.num("--stack-kb", 128) as usize;
+    let seed = a.num("--seed", 1);
+    shared::init();
+    alloc::reset(1, false);
+    let shape2 = shape.clone();
+    let th = std::thread::Builder::new().stack_size(stack_kb * 1024).spawn(move || alloc::sut(|| scale::run(&shape2, n, chords, selfsame, seed)));
+    let o = match th {
+        Ok(h) => match h.join() {
+            Ok(o) => o,
+            Err(_) => {
+                out("{\"type\":\"scale\",\"error\":\"panic\"}\n");
+                return 1;
+            }
+        },
+        Err(_) => die("cannot spawn thread"),
+    };
+    out(&format!(
+        "{{\"type\":\"scale\",\"shape\":\"{shape}\",\"n\":{},\"edges\":{},\"stack_kb\":{stack_kb},\"destroyed\":{},\"double\":{},\"trace_calls\":{},\"pops\":{},\"visits\":{},\"scanned\":{},\"build_us\":{},\"drop_us\":{}}}\n",
+        o.n, o.edges, o.destroyed, o.double, o.trace_calls, o.pops, o.visits, o.scanned, o.build_us, o.drop_us
+    ));
+    0
+}
+
 fn main() {
     let a = Args(std::env::args().collect());
     let cmd = a.0.get(1).map(|s| s.as_str()).unwrap_or("");
     let code = match cmd {
         "batch" => batch(&a),
         "replay" => replay(&a),
+        "scale" => scale_cmd(&a),
         _ => die("usage: cactus-sim batch|replay ..."),
     };
     unsafe { alloc::_exit(code) }
